@@ -604,7 +604,7 @@ func init() {
 		Assume: []string{"host initialised as the property requires", "a run that kills its worker process is confirmed by the driver from the worker's last announced seed"},
 		Real:   real, Stub: stub, Gen: genC03, Run: advRun("C03")})
 	register(&Check{ID: "C20", Level: "exploration",
-		Rule:   "same adversarial profiles, biased to long-string encodings and huge length words; invariant per executed instruction: StateDB reads <= 32 + cost/10 (enforced while the instruction runs) and bytes allocated <= 1 MiB + 64*cost + 2*memory size (journal, copy and call windows; journal windows may add twice what the journal instructions of the transaction allocated so far: a doubling map or slice); amortised per transaction for the flat-fee journal instructions 0xe0-0xe6: allocation beyond twice the memory size <= 1 MiB + 16 bytes per gas they paid; plus a loop profile of 2500-5500 journal instructions in one frame; distinct = hash of event-kind sequence",
+		Rule:   "same adversarial profiles, biased to long-string encodings and huge length words; invariant per executed instruction: StateDB reads <= 32 + cost/10 (enforced while the instruction runs) and bytes allocated <= 1 MiB + 64*cost + 2*memory size (journal, copy and call windows; journal windows may add twice what the journal instructions of the transaction allocated so far: a doubling map or slice); a copy / hash / log instruction (0x20, 0x37, 0x39, 0x3c, 0x3e, 0x5e, 0xa0-0xa4) that did not expand memory: bytes allocated <= 64 KiB + 64*cost, no memory term; one scenario in 40 is a copy loop on 96-256 KiB of memory paid for once; amortised per transaction for the flat-fee journal instructions 0xe0-0xe6: allocation beyond twice the memory size <= 1 MiB + 16 bytes per gas they paid; plus a loop profile of 2500-5500 journal instructions in one frame; distinct = hash of event-kind sequence",
 		Assume: []string{"work that crosses no seam (hashing inside a precompile, CPU time) is not measured"},
 		Real:   real, Stub: stub, Gen: func(seed uint64, tier string) *Scenario {
 			if seed%160 == 7 {
